@@ -435,6 +435,13 @@ def engine_E(name, kinds, sizes, lin_sizes, seed, wd_name=None):
                          {"op": "append", "q": 2, "o": 3}, {"op": "append", "q": 0, "o": 2}]
                 cases.append({"case": [kind, "lin", n, pat], "kind": kind, "hasher": "std", "snap": 0, "universe": [],
                               "steps": steps, "probes": [], "wit": []})
+                # append of a queue of about the same length whose priorities all lie above (below) the receiver's
+                for off in (2 * n + 10, -(2 * n + 10)):
+                    st2 = [{"op": "from_vec", "q": 0, "gen": g},
+                           {"op": "from_vec", "q": 2, "gen": dict(g, n=max(n - 2, 1), prefix="j", offset=off)},
+                           {"op": "append", "q": 0, "o": 2}]
+                    cases.append({"case": [kind, "app", n, pat, off], "kind": kind, "hasher": "std", "snap": 0, "universe": [],
+                                  "steps": st2, "probes": [], "wit": []})
     f.samples.append({"engine": "E", "sizes": list(sizes), "linear_sizes": list(lin_sizes),
                       "patterns": ["asc", "desc", "const", "rand"], "first_measured_steps": cases[0]["steps"][:6]})
     f.stats["engines"].append({"engine": "E", "cases": len(cases), "sizes": list(sizes), "linear_sizes": list(lin_sizes)})
@@ -578,10 +585,16 @@ def engine_D(name, kinds, nitems, maxp, tier, seed, wd_name=None, model=True, mo
                              {"op": "change_priority_by", "k": k, "r": 12}, {"op": "push_increase", "k": k, "r": 12},
                              {"op": "push_decrease", "k": k, "r": -5}]
                 bops += [{"op": p} for p in pm]
+                newk = ["n%d" % i for i in range(6)]
+                prs = [[k, rng.randint(-3, 9)] for k in newk[:3] + picks[:2] + newk[3:]]
+                bops += [{"op": "extend", "pairs": prs, "hint": [0, -4]}, {"op": "extend", "pairs": prs, "hint": [0, -1]},
+                         {"op": "extend", "pairs": prs}]
                 bconts = [[{"op": pm[0]}] * 3 + [{"op": pm[-1]}] * 3,
                           [{"op": "remove", "k": k} for k in picks] + [{"op": "push", "k": "y", "r": 0}, {"op": pm[0]}],
                           [{"op": "push", "k": "y", "r": 12}, {"op": "push", "k": "x", "r": -5}, {"op": pm[-1]}, {"op": pm[0]}],
-                          [{"op": "change_priority", "k": picks[0], "r": 0}, {"op": "retain", "keep": bk[1:]}, {"op": pm[0]}]]
+                          [{"op": "change_priority", "k": picks[0], "r": 0}, {"op": "retain", "keep": bk[1:]}, {"op": pm[0]}],
+                          [{"op": "change_priority", "k": "n0", "r": 5}, {"op": "change_priority_by", "k": "n1", "r": -5},
+                           {"op": "push", "k": "n2", "r": 3}, {"op": "remove", "k": "n0"}, {"op": pm[0]}]]
                 for j in range(0, len(bops), 8):
                     cases.append({"case": [kind, "sweep-big", size, rep, j], "kind": kind, "hasher": "std",
                                   "universe": bk + ["z", "y", "x"], "steps": base, "probes": [], "wit": [],
